@@ -306,6 +306,56 @@ fn tamper_phase(w: &mut World, c: &Circuit, sites: &[Site]) {
             }
         }
     }
+    // (3) outputs that are plain witnesses: a gadget's output must be pinned by constraints; add 1 to it, repair
+    //     what is defined afterwards, and see whether the system still holds
+    let mut tried_out = 0u64;
+    if c.tamper_free && w.out.viols.is_empty() {
+        let mut outs: Vec<(usize, &'static str)> = Vec::new();
+        for rel in w.rels.iter() {
+            let (id, what) = match rel {
+                Rel::Encode { out, .. } => (*out, "encode"),
+                Rel::Abs { out, .. } => (*out, "abs"),
+                _ => continue,
+            };
+            if let Id::F(k) = id {
+                if let Some(fv) = w.fs.get(&k) {
+                    if let ark_r1cs_std::fields::fp::FpVar::Var(a) = &fv.var {
+                        if let ark_relations::r1cs::Variable::Witness(j) = a.variable {
+                            outs.push((j, what));
+                        }
+                    }
+                }
+            }
+        }
+        for (j, what) in outs {
+            if j >= nw {
+                continue;
+            }
+            tried_out += 1;
+            let mut z = z0.clone();
+            z[ni + j] += one;
+            mat.repair(&mut z, ni + j);
+            if mat.sat(&z) {
+                w.fault("output_witness_changed_system_still_satisfied");
+                w.tamper_tag = Some("output_witness_plus_one");
+                w.viol(
+                    "C14",
+                    "sat_but_output_differs",
+                    format!("gadget={}", what),
+                    format!(
+                        "the witness holding the output of {} can be changed (value + 1) and every constraint still holds: the output is not bound to its input",
+                        what
+                    ),
+                );
+                w.tamper_tag = None;
+                break;
+            }
+        }
+    }
+    if tried_out > 0 {
+        *w.out.probes.entry("output_witnesses_perturbed").or_insert(0) += tried_out;
+        w.out.nontrivial = true;
+    }
     if tried_bits > 0 {
         *w.out.probes.entry("bit_decomposition_windows_rewritten").or_insert(0) += tried_bits;
     }
